@@ -107,7 +107,11 @@ func (r *runner) peerLeavesMidCall(k string) {
 	for _, c := range raw {
 		c.Close()
 	}
-	for t0 := time.Now(); LibGoroutines() >= before && time.Since(t0) < time.Second; {
+	noticeCeiling := time.Second
+	if sc.addr != "" && (k == "stateless" || k == "nosession") {
+		noticeCeiling = 30 * time.Millisecond // no stream whose handler could end: the blocked handlers notice nothing before they write
+	}
+	for t0 := time.Now(); LibGoroutines() >= before && time.Since(t0) < noticeCeiling; {
 		time.Sleep(2 * time.Millisecond) // pacing: the server notices that the peer is gone (its stream handler ends)
 	}
 	close(release)
